@@ -69,6 +69,11 @@ BODIES = [
                          '>>> T.append("{id}")']),
     ('req_existing_pkg', ['>>> # xdoctest: +REQUIRES(module:{pkg})', '>>> T.append("{id}")', '>>> print("has{id}")', 'has{id}']),
     ('gotwant_fail', ['>>> T.append("{id}")', '>>> print("a")', 'b']),
+    # a compound statement that echoes a value (the interactive interpreter's way: the value goes through
+    # sys.displayhook) and a doctest that looks at the interpreter's "last value" name
+    ('echo_value', ['>>> T.append("{id}")', '>>> if 1:', '...     6 * 7', '42']),
+    ('reads_last_value', ['>>> T.append("{id}")', '>>> try:', '...     print("stale", _)', '... except NameError:',
+                          '...     print("fresh")', 'fresh']),
     # nothing runs at all: skipped on every run, also on the n-th run of the same object
     ('all_skipped', ['>>> # xdoctest: +SKIP', '>>> T.append("{id}")', '>>> print("never")', 'BOGUS']),
     ('all_unmet', ['>>> # xdoctest: +REQUIRES(module:nx_zz_{id})', '>>> T.append("{id}")']),
@@ -90,7 +95,7 @@ SWITCHED = ('switch', 'switch_bind', 'switch_requires', 'switch_requires_inline'
 
 
 def required_cells(tier):
-    return (['kind:' + k for k in KINDS] + ['history:same-object-twice', 'history:switch-AB', 'history:switch-BA', 'history:missing-submodule-then-package',
+    return (['kind:' + k for k in KINDS] + ['history:same-object-twice', 'history:switch-AB', 'history:switch-BA', 'history:missing-submodule-then-package', 'history:echo-then-last-value',
             'history:ordered-pair', 'history:random', 'history:fresh-object', 'module-dict-checks', 'baseline-children',
             'session-options:none', 'session-options:given', 'mode:native', 'mode:pytest'] +
             ['history:' + h for h, _ in PATCH_HISTORIES])
@@ -110,6 +115,8 @@ def gen(rng, uid):
     if rng.random() < 0.35:
         kinds = [k for k in kinds if not k[0].startswith('req_')]
         kinds += [b for b in BODIES if b[0] == 'req_missing_sub'] + [b for b in BODIES if b[0] == 'req_existing_pkg']
+    elif rng.random() < 0.3:
+        kinds += [b for b in BODIES if b[0] == 'echo_value'] + [b for b in BODIES if b[0] == 'reads_last_value']
     # (a package this worker process has not asked about yet, as long as the list lasts)
     try:
         pkg = REQ_PACKAGES[(int(uid.split('x')[1]) // 16) % len(REQ_PACKAGES)]
@@ -264,6 +271,10 @@ def check_module(ctx, idx, seed):
             if kind_of[n] in SWITCHED:
                 histories.append(('switch-AB', [(n, 'A', False), (n, 'B', False)]))
                 histories.append(('switch-BA', [(n, 'B', False), (n, 'A', False), (n, 'B', False)]))
+        echo = [n for n in names if kind_of[n] == 'echo_value']
+        reads = [n for n in names if kind_of[n] == 'reads_last_value']
+        if echo and reads:
+            histories.append(('echo-then-last-value', [(echo[0], 'B', False), (reads[0], 'B', False)]))
         miss = [n for n in names if kind_of[n] == 'req_missing_sub']
         have = [n for n in names if kind_of[n] == 'req_existing_pkg']
         if miss and have:
